@@ -75,6 +75,16 @@ class Models:
             return None
         raise Inconclusive('unmodelled external ' + name)
 
+    def known(s, name):
+        """is there a model for this external? (the error-message cut only applies to regions that need unmodelled ones)"""
+        if name in s.table or name.startswith('@llvm.') or name.startswith('@vf_'):
+            return True
+        if re.match(r'@_ZNSt(13runtime_error|11logic_error|12length_error|12out_of_range|16invalid_argument)(C[12]|D[012])', name):
+            return True
+        if re.match(r'@_ZNSt9exceptionD[012]Ev', name):
+            return True
+        return False
+
     def stop(s):
         raise s.PathEnd()
 
@@ -585,6 +595,13 @@ class Models:
             return s.eng.A.fintr(st, name, args[0], kind)
         return h
 
+    def fp_minmax(which, kind):
+        def h(s, st, stack, work, args, ins):
+            return s.eng.A.fminmax(st, which, args[0], args[1], kind)
+        return h
+
+    x_fminf = fp_minmax('min', 'float'); x_fmin = fp_minmax('min', 'double')
+    x_fmaxf = fp_minmax('max', 'float'); x_fmax = fp_minmax('max', 'double')
     x_truncf = fp_unary('trunc', 'float'); x_trunc = fp_unary('trunc', 'double')
     x_floorf = fp_unary('floor', 'float'); x_floor = fp_unary('floor', 'double')
     x_ceilf = fp_unary('ceil', 'float'); x_ceil = fp_unary('ceil', 'double')
@@ -626,6 +643,9 @@ class Models:
         m = re.match(r'(trunc|fabs|floor|ceil|rint|nearbyint|round)\.(f32|f64)', n)
         if m:
             return A.fintr(st, m.group(1), args[0], 'float' if m.group(2) == 'f32' else 'double')
+        m = re.match(r'(minnum|maxnum|minimum|maximum)\.(f32|f64)', n)
+        if m:
+            return A.fminmax(st, 'min' if m.group(1).startswith('min') else 'max', args[0], args[1], 'float' if m.group(2) == 'f32' else 'double')
         m = re.match(r'(lrint|llrint)\.i(\d+)\.(f32|f64)', n)
         if m:
             if A.real: s.real_lrint(st, args[0])
